@@ -158,3 +158,22 @@ Proof.
   intros Hv. unfold dec_vd, enc_vd. rewrite dec_va_roundtrip by (unfold i64_range, not_i64 in *; lia).
   f_equal. f_equal. unfold not_i64. lia.
 Qed.
+
+(* ---- statements directly about the generated Go functions ---- *)
+Theorem G_varint_asc_order : sd_order Z.compare (G_EncodeVarintAscending []) i64_range.
+Proof. intros a b r s Ha Hb. rewrite !G_varint_asc_shape by assumption. apply enc_va_order; assumption. Qed.
+Theorem G_varint_desc_order : sd_order (fun a b => Z.compare b a) (G_EncodeVarintDescending []) i64_range.
+Proof. intros a b r s Ha Hb. rewrite !G_varint_desc_shape by assumption. apply enc_vd_order; assumption. Qed.
+Theorem G_uvarint_asc_order : sd_order Z.compare (G_EncodeUvarintAscending []) u64_range.
+Proof. intros a b r s Ha Hb. rewrite !G_uvarint_asc_shape by assumption. apply enc_uva_order; assumption. Qed.
+Theorem G_uvarint_desc_order : sd_order (fun a b => Z.compare b a) (G_EncodeUvarintDescending []) u64_range.
+Proof. intros a b r s Ha Hb. rewrite !G_uvarint_desc_shape by assumption. apply enc_uvd_order; assumption. Qed.
+
+Theorem G_varint_asc_roundtrip v rest : i64_range v -> dec_va (G_EncodeVarintAscending [] v ++ rest) = Some (rest, v).
+Proof. intros H. rewrite G_varint_asc_shape by assumption. apply dec_va_roundtrip; assumption. Qed.
+Theorem G_varint_desc_roundtrip v rest : i64_range v -> dec_vd (G_EncodeVarintDescending [] v ++ rest) = Some (rest, v).
+Proof. intros H. rewrite G_varint_desc_shape by assumption. apply dec_vd_roundtrip; assumption. Qed.
+Theorem G_uvarint_asc_roundtrip v rest : u64_range v -> dec_uva (G_EncodeUvarintAscending [] v ++ rest) = Some (rest, v).
+Proof. intros H. rewrite G_uvarint_asc_shape by assumption. apply dec_uva_roundtrip; assumption. Qed.
+Theorem G_uvarint_desc_roundtrip v rest : u64_range v -> dec_uvd (G_EncodeUvarintDescending [] v ++ rest) = Some (rest, v).
+Proof. intros H. rewrite G_uvarint_desc_shape by assumption. apply dec_uvd_roundtrip; assumption. Qed.
